@@ -132,7 +132,7 @@ Definition rd_opttext (l : list Z) : option (option text * list Z) :=
   | [] => None
   end.
 
-(* [nitems; items...; org; end; name; author; (nendlabels; ids...)] *)
+(* [nitems; items...; org; end; name; author] optionally followed by [-7; nendlabels; ids...] *)
 Definition rd_prog (l : list Z) : option (prog * list Z) :=
   let f := S (length l) in
   match l with
@@ -149,10 +149,10 @@ Definition rd_prog (l : list Z) : option (prog * list Z) :=
             | Some (au, t5) =>
               (* optional tail: the labels of the END line *)
               match t5 with
-              | [] => Some (mkProg its org en nm au [], t5)
-              | _ => match rd_ids t5 with
-                     | Some (els, t6) => Some (mkProg its org en nm au els, t6)
-                     | None => None end
+              | (-7) :: t5' => match rd_ids t5' with
+                               | Some (els, t6) => Some (mkProg its org en nm au els, t6)
+                               | None => None end
+              | _ => Some (mkProg its org en nm au [], t5)
               end
             | None => None end
           | None => None end
